@@ -9,15 +9,20 @@
     [rel l x] says that the log-space value [l] is -inf or finite and that [x] is its
     exponential (exp(-inf) = 0).
 
-    What is proved: [logsumexp] (discrete.py:370-383) computes log(sum(exp)), and every
+    What is proved: [logsumexp] (discrete.py:370-383) computes log(sum(exp)); every
     operation of the logarithmic space is mapped to the linear one by exp, under the side
-    condition of the property text (no linear denominator is 0, except 0/0 with div_0_null).
-    NOT proved here: the induction over a whole inside/outside/maximization run that chains
-    these operation-level facts (it needs the invariant that no denominator vanishes); that
-    part of C12 is tested (both spaces run on generated inputs, tools/props/c12.py), hence
-    the suffix [_partial] on the homomorphism theorem. *)
+    condition of the property text (no linear denominator is 0, except 0/0 with div_0_null);
+    and, at run level, the whole INSIDE pass: inside values and the returned marginal
+    likelihood of the logarithmic run are the logarithms of those of the linear run, for every
+    input (any DAG, several trees, span fractions), provided no linear denominator is 0.
+    Also at run level: outside_maximization returns the same indices in both spaces.
+    NOT proved: the same run-level chaining for outside_pass (its operations are covered by
+    [C12_homomorphism_partial]; the chaining needs the invariants that no standardisation
+    maximum vanishes and that 0/0 only occurs with div_0_null); that part of C12 is tested
+    (both spaces run on generated inputs, tools/props/c12.py). *)
 From Coq Require Import List Reals.
-From TsdateV Require Import lib.Num model.Discrete model.DiscreteER proofs.DiscreteBase proofs.DiscreteLog.
+From TsdateV Require Import lib.Num model.Discrete model.DiscreteER proofs.DiscreteBase proofs.DiscreteInside
+  proofs.DiscreteLog proofs.DiscreteLogRun proofs.DiscreteMaxRun.
 Import ListNotations.
 Open Scope R_scope.
 
@@ -59,6 +64,48 @@ Theorem C12_homomorphism_partial :
   (forall x, 0 <= x -> rel (s_oflin LogER (EFin x)) (s_oflin LinR x)).
 Proof. exact homomorphism_ops. Qed.
 Print Assumptions C12_homomorphism_partial.
+
+(** run level, inside pass: [likL]/[likR] are the log-pmf / pmf tables, [priorL]/[priorR] the prior
+    rows in the two spaces, span fractions [sfR e] > 0 enter the logarithmic run as [EFin (sfR e)];
+    [gs] are the parent groups of the edge table in a valid order.  If no denominator of the
+    linear run is 0, every inside vector of the logarithmic run is entrywise the logarithm of the
+    linear one (-inf for 0), and so is the returned marginal likelihood. *)
+Theorem C12_inside_pass_agrees :
+  forall (G : nat) (likL : nat -> nat -> nat -> ER) (likR : nat -> nat -> nat -> R),
+  (forall e i j, rel (likL e i j) (likR e i j)) ->
+  forall (sfR : nat -> R), (forall e, 0 < sfR e) ->
+  forall (fixed : nat -> bool) (priorL : nat -> list ER) (priorR : nat -> list R),
+  (forall u, Forall2 rel (priorL u) (priorR u)) ->
+  forall es (roots : list (nat * R)) stL mL stR mR,
+  let gs := groupby e_parent es in
+  inside_order fixed [] gs ->
+  inside_pass LogER G likL (fun e => EFin (sfR e)) fixed priorL true es
+      (map (fun rf => (fst rf, EFin (snd rf))) roots) = Some (stL, mL) ->
+  inside_pass LinR G likR sfR fixed priorR true es roots = Some (stR, mR) ->
+  (forall g d, In g gs -> fixed (fst g) = false -> i_den LinR stR (fst g) = Some d -> d <> 0) ->
+  (forall rf, In rf roots -> 0 < snd rf /\ fixed (fst rf) = false /\ In (fst rf) (map fst gs)) ->
+  (forall g, In g gs -> fixed (fst g) = false ->
+     exists l xs, i_ins LogER stL (fst g) = Some l /\ i_ins LinR stR (fst g) = Some xs /\ Forall2 rel l xs) /\
+  rel mL mR.
+Proof. exact inside_pass_agree. Qed.
+Print Assumptions C12_inside_pass_agrees.
+
+(** run level, maximisation: given inside values and edge likelihoods that correspond under exp
+    (positive likelihoods), outside_maximization returns exactly the same grid indices in the
+    two spaces -- for every edge sequence, valid or not *)
+Theorem C12_maximization_agrees :
+  forall (fixed : nat -> bool) (insL : nat -> option (list ER)) (insR : nat -> option (list R)),
+  (forall u, match insL u, insR u with
+             | Some l, Some xs => Forall2 rel l xs
+             | None, None => True
+             | _, _ => False
+             end) ->
+  forall (poisL : nat -> nat -> nat -> ER) (poisR : nat -> nat -> nat -> R),
+  (forall e p t, rel (poisL e p t) (poisR e p t)) -> (forall e p t, 0 < poisR e p t) ->
+  forall n es,
+  outside_maximization LogER fixed insL poisL n es = outside_maximization LinR fixed insR poisR n es.
+Proof. exact maximization_agree. Qed.
+Print Assumptions C12_maximization_agrees.
 
 (** non-vacuity: a vector mixing -inf and finite entries satisfies the hypothesis, and [rel]
     relates 0 ~ log 1 and -inf ~ 0 *)
